@@ -119,9 +119,9 @@ Lemma rel_next_corr c0 q s : Rel c0 q s -> Rel c0 q (set_next_corr (next_corr s 
 Proof. intros R. destruct R. constructor; cbn; auto. lia. Qed.
 
 (* ---- add ---- *)
-Lemma sim_add c0 tdrv full c q s k a1 a2 a3 :
+Lemma sim_add c0 tdrv c q s k a1 a2 a3 :
   c_tdrv c = tdrv -> inv s -> Rel c0 q s ->
-  exists q', c09_step c0 tdrv full q (Add k a1 a2 a3) (snd (do_add k a1 a2 a3 s)) = Next q' /\ Rel c0 q' (fst (do_add k a1 a2 a3 s)).
+  exists q', c09_step c0 tdrv (ring_full s) q (Add k a1 a2 a3) (snd (do_add k a1 a2 a3 s)) = Next q' /\ Rel c0 q' (fst (do_add k a1 a2 a3 s)).
 Proof. intros Hc I R. destruct (do_add k a1 a2 a3 s) as [s' [[r cbs] cmds]] eqn:E. cbn [fst snd].
   pose proof (add_result k a1 a2 a3 s) as Hr. rewrite E in Hr. cbn in Hr.
   destruct Hr as [Hr|Hr].
@@ -129,7 +129,7 @@ Proof. intros Hc I R. destruct (do_add k a1 a2 a3 s) as [s' [[r cbs] cmds]] eqn:
     destruct R. cbn [c09_step]. rewrite R_client0.
     replace (q_max q <? next_corr s) with true by lia. cbn [existsb negb andb]. rewrite cmd_eqb_refl.
     assert (Hs' : s' = setm k (ins (next_corr s) (new_entry (now s) a1 a2 a3) (getm k (set_next_corr (next_corr s + 1) s))) (set_next_corr (next_corr s + 1) s)).
-    { unfold do_add in E. rewrite Ha, Hcl in E. cbn [negb] in E. destruct (kind_eqb k KCtr && _); [discriminate|].
+    { unfold do_add in E. rewrite Ha, Hcl in E. cbn [negb] in E. destruct (add_illegal k a1 a2 a3); [discriminate|].
       destruct (ring_full s); [discriminate|]. inversion E. reflexivity. }
     subst s'. eexists. split; [reflexivity|].
     constructor; cbn [set_qmax set_regs q_now q_closed q_regs q_max q_hmax q_close_sent]; rewrite ?setm_client_id, ?setm_now, ?setm_closed, ?setm_next_corr, ?setm_next_h, ?setm_close_sent; cbn [client_id now closed next_corr next_h close_sent set_next_corr]; auto; try lia.
@@ -152,8 +152,13 @@ Proof. intros Hc I R. destruct (do_add k a1 a2 a3 s) as [s' [[r cbs] cmds]] eqn:
         -- specialize (R_pt0 Hcl k' r'). destruct (rlookup k' r' (q_regs q)); exact R_pt0.
         -- destruct (kind_eqb k k') eqn:E5; [right|left; apply kind_eqb_neq in E5; congruence]. cbn in E3. lia.
   - assert (Hx : exists e, r = Err e) by (destruct Hr as [Hr|[Hr|[Hr|Hr]]]; subst r; eauto). destruct Hx as (e & He). subst r.
-    destruct (add_rejected _ _ _ _ _ _ _ _ _ E) as (Hs' & -> & ->). cbn. exists q. split; auto.
-    destruct Hs' as [->|(_ & _ & ->)]; auto. apply rel_next_corr. exact R. Qed.
+    destruct (add_rejected _ _ _ _ _ _ _ _ _ E) as (Hs' & -> & ->). cbn [fst snd c09_step]. exists q. split.
+    + (* the refusal has its reason *)
+      destruct (add_refused_why _ _ _ _ _ _ _ _ _ E) as [[-> _]|[[-> Hx]|[[-> Hx]|[-> Hx]]]]; try reflexivity.
+      * rewrite (R_closed _ _ _ R), Hx. reflexivity.
+      * rewrite Hx. reflexivity.
+      * rewrite Hx. reflexivity.
+    + destruct Hs' as [->|(_ & _ & ->)]; auto. apply rel_next_corr. exact R. Qed.
 
 (* re-establishing the relation after a step that only touches the registration (k, r) *)
 Lemma rel_frame c0 q s q' s' k r :
@@ -346,12 +351,32 @@ Proof. rewrite do_drop_eq.
     destruct Hd as (A & B & C & D & E & F & G). repeat split; auto. }
   destruct k; try apply drop_framed_refl; destruct (user_obj _ r s); try apply drop_framed_refl; apply Hx. Qed.
 
-Lemma user_obj_none_open k r s :
+(* dropping when the registration has no handle in the user's hands: nothing happens, or - the handle was closed and its
+   registration forgotten by the conductor (channel endpoint error) - the closed handle goes away without a command *)
+Lemma find_orphan_in' k r l o : find_orphan k r l = Some o -> In (k, r, o) l.
+Proof. induction l as [|[[k' r'] o'] l IH]; cbn; [discriminate|].
+  destruct (kind_eqb k' k && (r' =? r)) eqn:E.
+  - intros H. inversion H; subst. left. apply andb_prop in E. destruct E as [E1 E2]. apply kind_eqb_eq in E1. subst.
+    f_equal. f_equal. lia.
+  - intros H. right. auto. Qed.
+
+Lemma do_drop_nouser k r s :
   inv s -> closed s = false ->
   (match lookup r (getm k s) with Some e => match e_obj e with Some o => o_user o = false | None => True end | None => True end) ->
-  user_obj k r s = None.
-Proof. intros (_ & _ & _ & I4 & _) Hc H. unfold user_obj. rewrite (I4 Hc).
-  destruct (lookup r (getm k s)) as [e|]; [|reflexivity]. destruct (e_obj e) as [o|]; [|reflexivity]. rewrite H. reflexivity. Qed.
+  do_drop k r s = (s, (Ok [0], [], [])) \/ exists l cbs, do_drop k r s = (set_orphans l s, (Ok [1], cbs, [])).
+Proof. intros I Hc H. rewrite do_drop_eq. destruct (kind_eqb k KDest) eqn:Ekd.
+  { apply kind_eqb_eq in Ekd. subst. left. reflexivity. }
+  apply kind_eqb_neq in Ekd.
+  assert (Hu : user_obj k r s = find_orphan k r (orphans s)).
+  { unfold user_obj. destruct (lookup r (getm k s)) as [e|]; [|reflexivity]. destruct (e_obj e) as [o|]; [|reflexivity]. rewrite H. reflexivity. }
+  rewrite Hu. destruct (find_orphan k r (orphans s)) as [o|] eqn:Eo; [|left; destruct k; reflexivity].
+  right. apply find_orphan_in' in Eo. destruct (inv_orphan s k r o I Eo) as [Hl _].
+  destruct I as (_ & _ & _ & _ & I5). rewrite Forall_forall in I5. destruct (I5 _ Eo) as [Hcl _]. cbn [snd] in Hcl.
+  assert (Hrel : do_release k r [] s = (s, (inactive_cb s, []))) by (unfold do_release; rewrite Hl; reflexivity).
+  destruct k; try congruence; unfold dtor_user; rewrite ?Hcl, ?Hrel; cbn [fst snd]; eauto. Qed.
+
+Lemma rel_set_orphans c0 q s l : Rel c0 q s -> Rel c0 q (set_orphans l s).
+Proof. intros R. destruct R. constructor; auto. Qed.
 
 Lemma do_drop_none k r s : user_obj k r s = None -> do_drop k r s = (s, (Ok [0], [], [])).
 Proof. intros H. rewrite do_drop_eq, H. destruct k; reflexivity. Qed.
@@ -419,21 +444,24 @@ Proof. intros I R. pose proof (do_drop_framed k r s) as (F1 & F2 & F3 & F4 & F5 
       + intros k' r' Hne. split; [apply rlookup_rset_other; auto|apply F6; auto].
       + intros _. rewrite rlookup_rset_same by congruence. cbn [pt rel_entry]. rewrite Ex in P. cbn in P.
         destruct F7 as [F7|[F7|(e' & F7 & Hdr)]]; rewrite F7; auto. congruence. }
-  assert (Hnone : do_drop k r s = (s, (Ok [0], [], [])) ->
+  assert (Hnone : (do_drop k r s = (s, (Ok [0], [], [])) \/ exists l cbs, do_drop k r s = (set_orphans l s, (Ok [1], cbs, []))) ->
                   exists q', c09_step c0 tdrv (ring_full s) q (DropHandle k r) (snd (do_drop k r s)) = Next q' /\ Rel c0 q' (fst (do_drop k r s))).
   { intros H. destruct (rlookup k r (q_regs q)) as [[| [h|] | | |]|] eqn:Ex; try (apply Hany; reflexivity);
-      try (rewrite H; cbn [fst snd c09_step]; rewrite Hqc, Ex; exists q; split; [reflexivity|exact R]).
+      try (destruct H as [H|(l & cbs & H)]; rewrite H; cbn [fst snd c09_step]; rewrite Hqc, Ex; exists q;
+           (split; [reflexivity|]); [exact R|apply rel_set_orphans; exact R]).
     (* LReady (Some h): the handle is held, so the drop does release it *)
     exfalso. cbn in P. destruct P as (Hk & e & o & He & Ho & Hu & Hh & _).
     assert (Hheld : held k r h s) by (exists o; unfold hobj; rewrite He; auto).
     destruct (ring_full s) eqn:Erf.
-    - destruct (release_held_refused k r h s Hk I Hheld Erf) as (s' & cbs & Hd & _). rewrite Hd in H. inversion H.
-    - destruct (release_held k r h s Hk I Hheld Erf) as (s' & cbs & Hd & _). rewrite Hd in H. inversion H. }
+    - destruct (release_held_refused k r h s Hk I Hheld Erf) as (s' & cbs & Hd & Hnc & _). rewrite Hd in H.
+      destruct H as [H|(l & cbs' & H)]; inversion H; subst; cbn in Hnc; lia.
+    - destruct (release_held k r h s Hk I Hheld Erf) as (s' & cbs & Hd & _). rewrite Hd in H.
+      destruct H as [H|(l & cbs' & H)]; inversion H. }
   assert (Huser : (match lookup r (getm k s) with Some e => match e_obj e with Some o => o_user o = false | None => True end | None => True end) ->
-                  do_drop k r s = (s, (Ok [0], [], []))).
-  { intros H. apply do_drop_none. apply user_obj_none_open; auto. }
+                  (do_drop k r s = (s, (Ok [0], [], [])) \/ exists l cbs, do_drop k r s = (set_orphans l s, (Ok [1], cbs, [])))).
+  { intros H. apply do_drop_nouser; auto. }
   destruct (kind_eqb k KDest) eqn:Ekd.
-  { apply kind_eqb_eq in Ekd. subst k. apply Hnone. reflexivity. }
+  { apply kind_eqb_eq in Ekd. subst k. apply Hnone. left. reflexivity. }
   apply kind_eqb_neq in Ekd.
   destruct (rlookup k r (q_regs q)) as [x|] eqn:Ex; cbn [pt] in P.
   2:{ apply Hnone, Huser. rewrite P. exact Logic.I. }
@@ -694,6 +722,77 @@ Proof. intros I R Hc. destruct (on_error_scalars corr code s) as (S1 & S2 & S3 &
       * rewrite C_pt0. reflexivity.
     + rewrite on_error_other by lia. apply C_pt0. auto. Qed.
 
+(* ---- channel endpoint error ---- *)
+Lemma rlookup_rchan k r x l : rlookup k r (rchan x l) = option_map (chan_tr k x) (rlookup k r l).
+Proof. induction l as [|[[k2 r2] y] l IH]; cbn; auto.
+  destruct (kind_eqb k2 k && (r2 =? r)) eqn:E; auto. cbn. apply andb_prop in E. destruct E as [E _]. apply kind_eqb_eq in E. subst. reflexivity. Qed.
+Lemma reg_ids_rchan x l : reg_ids (rchan x l) = reg_ids l.
+Proof. unfold reg_ids, rchan. rewrite map_map. apply map_ext. intros [[k2 r2] y]. reflexivity. Qed.
+Lemma uniq_rchan x l : uniq l -> uniq (rchan x l).
+Proof. intros U k1 k2 r H1 H2. rewrite rlookup_rchan in H1, H2. apply (U k1 k2 r).
+  - destruct (rlookup k1 r l); [congruence|]. cbn in H1. congruence.
+  - destruct (rlookup k2 r l); [congruence|]. cbn in H2. congruence. Qed.
+
+Lemma lookup_on_chan_error k r x s : inv s ->
+  lookup r (getm k (fst (fst (on_chan_error x s)))) =
+  match k with
+  | KSub | KPub | KXPub => match lookup r (getm k s) with Some e => if chan_removed k x (r, e) then None else Some e | None => None end
+  | _ => lookup r (getm k s)
+  end.
+Proof. intros I. rewrite on_chan_error_state, getm_set_orphans, getm_chan_maps.
+  destruct k; try reflexivity; apply lookup_chan_keep; apply (inv_map_ok s _ I). Qed.
+
+Lemma chan_cbs_new k x m : new_cbs (chan_cbs k x m) = [].
+Proof. unfold new_cbs. apply filter_none. intros c Hc. apply chan_cbs_shape in Hc. destruct Hc as [->|(r & i & ->)]; reflexivity. Qed.
+
+Lemma sim_chan c0 q s x :
+  inv s -> RelC c0 q s -> closed s = false ->
+  RelC c0 (set_regs (rchan x (q_regs q)) q) (fst (fst (on_chan_error x s))) /\ new_cbs (snd (fst (on_chan_error x s))) = [].
+Proof. intros I R Hc. split.
+  2:{ unfold on_chan_error. cbn [fst snd]. unfold new_cbs. rewrite !filter_app. fold (new_cbs (chan_cbs KSub x (subs s))).
+      fold (new_cbs (chan_cbs KPub x (pubs s))). fold (new_cbs (chan_cbs KXPub x (xpubs s))). rewrite !chan_cbs_new. reflexivity. }
+  pose proof (fun k r => lookup_on_chan_error k r x s I) as Hl.
+  destruct R. constructor; cbn [set_regs q_now q_closed q_regs q_max q_hmax q_close_sent]; auto.
+  - rewrite reg_ids_rchan. exact C_ids0.
+  - apply uniq_rchan. exact C_uniq0.
+  - intros _ k r. rewrite rlookup_rchan, Hl. specialize (C_pt0 Hc k r).
+    destruct (rlookup k r (q_regs q)) as [y|]; cbn [option_map pt] in *.
+    2:{ rewrite C_pt0. destruct k; reflexivity. }
+    destruct (lookup r (getm k s)) as [e|] eqn:He.
+    2:{ destruct y as [t a1 a2|[h|] d1 d2 d3|cd| |]; cbn [rel_entry] in C_pt0;
+        try (destruct C_pt0 as (e & He' & _); discriminate); try (destruct C_pt0 as (_ & e & o & He' & _); discriminate).
+        - cbn [chan_tr]. destruct k; exact C_pt0.
+        - cbn [chan_tr]. destruct k; exact Logic.I. }
+    destruct (inv_lookup s k r e I He) as [_ [_ Hopen]].
+    destruct y as [t a1 a2|[h|] d1 d2 d3|cd| |]; cbn [rel_entry chan_tr] in *.
+    + (* Awaiting: no handle *) destruct C_pt0 as (e0 & H0 & Hst & Ho & Hrest). inversion H0; subst e0.
+      assert (Hr : chan_removed k x (r, e) = false) by (unfold chan_removed, chan_hit; cbn [snd]; rewrite Ho; reflexivity).
+      destruct k; rewrite ?Hr; exists e; auto.
+    + (* held *) destruct C_pt0 as (Hk & e0 & o & H0 & Ho & Hu & Hh & H1 & H2 & H3). inversion H0; subst e0.
+      specialize (Hopen o Ho).
+      assert (Hr : chan_removed k x (r, e) = (chan_id k o =? wrap32 x)).
+      { unfold chan_removed, chan_hit. cbn [snd]. rewrite Ho. destruct (chan_id k o =? wrap32 x); [|reflexivity]. rewrite Hopen. destruct k; reflexivity. }
+      destruct k; try congruence; rewrite ?Hr; cbn [chan_id]; rewrite ?H1, ?H2;
+        try match goal with |- context [?a =? ?b] => destruct (a =? b) end; cbn [pt rel_entry]; auto;
+        (split; [congruence|]); exists e, o; auto 10.
+    + (* ready, no handle in the user's hands *) destruct C_pt0 as (e0 & H0 & P). inversion H0; subst e0.
+      destruct k.
+      * destruct P as (Hst & Ho & P). assert (Hr : chan_removed KPub x (r, e) = false) by (unfold chan_removed, chan_hit; cbn [snd]; rewrite Ho; reflexivity).
+        rewrite Hr. exists e. auto.
+      * destruct P as (Hst & Ho & P). assert (Hr : chan_removed KXPub x (r, e) = false) by (unfold chan_removed, chan_hit; cbn [snd]; rewrite Ho; reflexivity).
+        rewrite Hr. exists e. auto.
+      * destruct P as (o & Ho & Hu & H1 & H2 & H3). specialize (Hopen o Ho).
+        assert (Hr : chan_removed KSub x (r, e) = (d1 =? wrap32 x)).
+        { unfold chan_removed, chan_hit. cbn [snd chan_id]. rewrite Ho, H1. destruct (d1 =? wrap32 x); [|reflexivity]. rewrite Hopen. reflexivity. }
+        rewrite Hr. destruct (d1 =? wrap32 x); cbn [pt rel_entry]; auto. exists e. split; auto. exists o. auto.
+      * exists e. split; auto.
+      * exists e. split; auto.
+    + (* errored: no handle *) destruct C_pt0 as (e0 & H0 & Hst & Hcd & Ho). inversion H0; subst e0.
+      assert (Hr : chan_removed k x (r, e) = false) by (unfold chan_removed, chan_hit; cbn [snd]; rewrite Ho; reflexivity).
+      destruct k; rewrite ?Hr; exists e; auto.
+    + discriminate.
+    + destruct k; try exact C_pt0; destruct (chan_removed _ x (r, e)); auto. Qed.
+
 Lemma sim_event c0 q s ev :
   inv s -> RelC c0 q s -> closed s = false ->
   RelC c0 (set_regs (fst (ready_step ev q)) q) (fst (fst (on_event ev s))) /\
@@ -776,7 +875,8 @@ Proof. intros I R Hc. destruct ev; cbn [on_event ready_step].
         assert (Hcc : ccbs = snd (close_ctrs (ctrs s))) by (rewrite Ect; reflexivity). subst ccbs. apply ctr_cbs_shape in Hx. destruct Hx as (r' & i & ->). reflexivity. }
     destruct (close_all s) as [[s1 cbs] hang]. cbn [fst snd] in *. destruct Hsc as (S1 & S2 & S3 & _ & S5 & S6 & _). split.
     + apply relc_set_same_regs. apply (relc_closed_state c0 q s s1 R Hcl); auto; lia.
-    + unfold new_cbs in *. rewrite filter_app, Hn. reflexivity. Qed.
+    + unfold new_cbs in *. rewrite filter_app, Hn. reflexivity.
+  - (* EvChanError *) cbn [fst snd]. apply sim_chan; auto. Qed.
 
 Lemma sim_event_closed c0 q s ev :
   inv s -> RelC c0 q s -> closed s = true ->
@@ -795,6 +895,7 @@ Proof. intros I R Hc. split.
     destruct ev; cbn [on_event]; rewrite ?Ep, ?Ex, ?Es, ?Ec; cbn [lookup fst snd]; try reflexivity.
     + repeat dmatch; reflexivity.
     + rewrite Hc. rewrite Bool.andb_false_r. reflexivity.
+    + unfold on_chan_error. cbn [fst snd]. rewrite Ep, Ex, Es. reflexivity.
 Qed.
 
 (* ---- the timer part of a duty cycle: registrations untouched unless it closes the client, no on_new_* callback ---- *)
@@ -953,7 +1054,7 @@ Lemma sim_step c0 tdrv tis q s o :
   inv s -> Rel c0 q s ->
   exists q', c09_step c0 tdrv (ring_full s) q o (snd (step (mkCfg tdrv tis) s o)) = Next q' /\ Rel c0 q' (fst (step (mkCfg tdrv tis) s o)).
 Proof. intros I R. destruct o; cbn [step].
-  - apply (sim_add c0 tdrv (ring_full s) (mkCfg tdrv tis)); auto.
+  - apply (sim_add c0 tdrv (mkCfg tdrv tis)); auto.
   - apply (sim_find c0 tdrv (ring_full s) (mkCfg tdrv tis)); auto.
   - apply sim_drop; auto.
   - apply sim_peek; auto.
@@ -962,7 +1063,10 @@ Proof. intros I R. destruct o; cbn [step].
   - cbn [fst snd c09_step]. exists q. split; [reflexivity|]. destruct R. constructor; auto.
   - cbn [fst snd c09_step]. exists q. split; [reflexivity|]. destruct R. constructor; auto.
   - cbn [fst snd c09_step]. exists q. split; [reflexivity|]. destruct R. constructor; auto.
-  - apply sim_dowork; auto. Qed.
+  - apply sim_dowork; auto.
+  - (* CloseHandle: the conductor is not involved *)
+    unfold do_close_handle. destruct k; try (cbn [fst snd c09_step]; exists q; split; [reflexivity|exact R]);
+      (destruct (user_obj _ r s); cbn [fst snd c09_step]; exists q; (split; [reflexivity|]); [destruct R; constructor; auto|exact R]). Qed.
 
 Lemma oracle_run c0 tdrv tis ops : forall q s,
   inv s -> Rel c0 q s -> c09_run c0 tdrv (ring_full s) q ops (snd (run (mkCfg tdrv tis) s ops)) = true.
